@@ -22,10 +22,24 @@ Qed.
 Print Assumptions C14_seed_removes_or_raises.
 
 (** Full statement of the property: every source program containing a sampling
-    site, also under grad / jvp, raises when compiled. *)
+    site, also under grad / jvp / value_and_grad, raises when compiled. *)
 Definition C14_full : Prop := forall p, contains_site p = true -> lower_raises p = true.
 
-(** It holds for programs without differentiated blocks ... *)
+Lemma has_sample_contains_site : forall p, has_sample p = contains_site p.
+Proof.
+  induction p as [|r IH|r IH|a IHa b IHb r IH|n b IHb r IH|b IHb r IH|b IHb r IH]; cbn;
+    rewrite ?IH, ?IHa, ?IHb; reflexivity.
+Qed.
+
+(** It holds for every program: a site that is differentiated while the program is being
+    staged raises the same error from its JVP rule (before fix F25 the rule inlined the
+    staged keyless sampler with its baked-in key, and this statement was refuted by
+    [JGrad (JSample JNil) JNil] - the former known finding K2). *)
+Theorem C14_full_holds : C14_full.
+Proof. intros p H. unfold lower_raises. rewrite has_sample_contains_site. exact H. Qed.
+Print Assumptions C14_full_holds.
+
+(** in particular for programs without differentiated blocks *)
 Fixpoint no_grad (p : jx) : bool :=
   match p with
   | JNil => true
@@ -36,27 +50,11 @@ Fixpoint no_grad (p : jx) : bool :=
   end.
 
 Theorem C14_partial : forall p, no_grad p = true -> contains_site p = true -> lower_raises p = true.
-Proof.
-  unfold lower_raises.
-  induction p as [|r IH|r IH|a IHa b IHb r IH|n b IHb r IH|b IHb r IH|b IHb r IH]; cbn; intros Hn Hc; auto.
-  - apply andb_prop in Hn as [Hn Hr]. apply andb_prop in Hn as [Ha Hb'].
-    apply orb_prop in Hc as [Hc|Hc]; [apply orb_prop in Hc as [Hc|Hc]|].
-    + rewrite (IHa Ha Hc). reflexivity.
-    + rewrite (IHb Hb' Hc). rewrite orb_true_r. reflexivity.
-    + rewrite (IH Hr Hc). rewrite orb_true_r. reflexivity.
-  - apply andb_prop in Hn as [Hb' Hr]. apply orb_prop in Hc as [Hc|Hc].
-    + rewrite (IHb Hb' Hc). reflexivity.
-    + rewrite (IH Hr Hc). rewrite orb_true_r. reflexivity.
-  - apply andb_prop in Hn as [Hb' Hr]. apply orb_prop in Hc as [Hc|Hc].
-    + rewrite (IHb Hb' Hc). reflexivity.
-    + rewrite (IH Hr Hc). rewrite orb_true_r. reflexivity.
-  - discriminate.
-Qed.
+Proof. intros p _ H. apply C14_full_holds. exact H. Qed.
 Print Assumptions C14_partial.
 
-(** ... and is false of the faithful model with differentiation (known finding
-    K2): jit(grad f) of a function with a site compiles, the site's JVP rule
-    having inlined a sampler with a key drawn from the global counter. *)
-Theorem C14_full_refuted : ~ C14_full.
-Proof. intros F. specialize (F (JGrad (JSample JNil) JNil) eq_refl). discriminate. Qed.
-Print Assumptions C14_full_refuted.
+(** seed over a differentiated block with a site raises as well (the block is staged by seed) *)
+Theorem C14_seed_over_grad_raises :
+  forall body rest, has_sample body = true -> unseeded (JGrad body rest) = true.
+Proof. intros body rest H. cbn. rewrite H. reflexivity. Qed.
+Print Assumptions C14_seed_over_grad_raises.
